@@ -168,15 +168,27 @@ Proof.
 Qed.
 
 Lemma model_result i rs :
-  i_action i <> Skip -> i_vout i = VRes rs ->
+  i_action i <> Skip -> i_vout i = VRes rs -> List.length rs = List.length (i_chain i) ->
   o_result (model i) = Some (classify (final_result rs (i_chain i))).
-Proof. intros Ha Hv. unfold model. rewrite Hv. destruct (i_action i); [reflexivity | reflexivity | congruence]. Qed.
+Proof.
+  intros Ha Hv Hl. unfold model. rewrite Hv, (proj2 (Nat.eqb_eq _ _) Hl).
+  destruct (i_action i); [reflexivity | reflexivity | congruence].
+Qed.
+
+(* an answer that is not one result per certificate is inconclusive (checkRevocationResults) *)
+Lemma model_incomplete i rs :
+  i_action i <> Skip -> i_vout i = VRes rs -> List.length rs <> List.length (i_chain i) ->
+  o_result (model i) = Some Inconclusive.
+Proof.
+  intros Ha Hv Hl. unfold model. rewrite Hv, (proj2 (Nat.eqb_neq _ _) Hl).
+  destruct (i_action i); [reflexivity | reflexivity | congruence].
+Qed.
 
 Lemma pass_iff i rs :
   i_action i <> Skip -> i_vout i = VRes rs -> List.length rs = List.length (i_chain i) ->
   (o_result (model i) = Some Pass <-> all_ok rs).
 Proof.
-  intros Ha Hv Hl. rewrite (model_result _ _ Ha Hv), all_ok_forallb. split.
+  intros Ha Hv Hl. rewrite (model_result _ _ Ha Hv Hl), all_ok_forallb. split.
   - intros H. destruct (forallb is_ok rs) eqn:E; [reflexivity|exfalso].
     destruct (existsb is_revoked rs) eqn:E2.
     + destruct (final_revoked _ _ Hl E2) as (k & _ & _ & Hf). rewrite Hf in H. cbn in H. discriminate.
@@ -191,7 +203,7 @@ Lemma revoked_named i rs :
   exists k, k < List.length rs /\ nth k rs ROK = RRevoked /\
             o_result (model i) = Some (Revoked (nth k (i_chain i) "")).
 Proof.
-  intros Ha Hv Hl Hin. rewrite (model_result _ _ Ha Hv).
+  intros Ha Hv Hl Hin. rewrite (model_result _ _ Ha Hv Hl).
   assert (E : existsb is_revoked rs = true) by (apply existsb_exists; exists RRevoked; auto).
   destruct (final_revoked _ _ Hl E) as (k & H1 & H2 & Hf). exists k. rewrite Hf. auto.
 Qed.
@@ -202,7 +214,7 @@ Lemma unknown_named i rs :
   exists k, k < List.length rs /\ is_ok (nth k rs ROK) = false /\
             o_result (model i) = Some (Unknown (nth k (i_chain i) "")).
 Proof.
-  intros Ha Hv Hl Hn Hr. rewrite (model_result _ _ Ha Hv).
+  intros Ha Hv Hl Hn Hr. rewrite (model_result _ _ Ha Hv Hl).
   assert (E : forallb is_ok rs = false).
   { destruct (forallb is_ok rs) eqn:E; [|reflexivity]. exfalso; apply Hn, all_ok_forallb, E. }
   assert (E2 : existsb is_revoked rs = false).
@@ -258,9 +270,9 @@ Proof.
   - rewrite combine_nth by exact Hl. cbn [fst snd]. now rewrite Hp, String.eqb_refl.
 Qed.
 
-Lemma model_spec_ok i : wf i = true -> spec_ok i (model i) = true.
+Lemma model_spec_ok_total i : spec_ok i (model i) = true.
 Proof.
-  intros Hwf. unfold spec_ok.
+  unfold spec_ok.
   destruct (i_action i) eqn:Ea; try (rewrite (skip_nothing _ Ea); reflexivity).
   all: assert (Hns : i_action i <> Skip) by congruence.
   all: assert (Hcalls : calls_ok i (o_calls (model i)) = true)
@@ -270,11 +282,15 @@ Proof.
   all: rewrite Hcalls; cbn [andb].
   all: assert (Hres : exists c, o_result (model i) = Some c /\ result_ok i c = true /\
                        o_rejected (model i) = match i_action i with Enforce => is_failure c | _ => false end).
-  1,3: unfold wf in Hwf; destruct (i_vout i) as [|rs] eqn:Ev.
+  1,3: destruct (i_vout i) as [|rs] eqn:Ev.
   1,3: exists Inconclusive; rewrite (validator_error _ Hns Ev); unfold result_ok, model; rewrite Ev, Ea; auto.
-  1,2: apply Nat.eqb_eq in Hwf; rewrite (model_result _ _ Hns Ev);
-       eexists; split; [reflexivity|]; split; [| unfold model; rewrite Ea, Ev; reflexivity];
-       unfold result_ok; rewrite Ev;
+  1,2: destruct (Nat.eq_dec (List.length rs) (List.length (i_chain i))) as [Hwf|Hwf].
+  2,4: exists Inconclusive; rewrite (model_incomplete _ _ Hns Ev Hwf); unfold result_ok, model;
+       rewrite Ev, Ea, (proj2 (Nat.eqb_neq _ _) Hwf); auto.
+  1,2: rewrite (model_result _ _ Hns Ev Hwf);
+       eexists; split; [reflexivity|]; split;
+         [| unfold model; rewrite Ea, Ev, (proj2 (Nat.eqb_eq _ _) Hwf); reflexivity];
+       unfold result_ok; rewrite Ev, (proj2 (Nat.eqb_eq _ _) Hwf); cbn [negb];
        destruct (forallb is_ok rs) eqn:E1;
        [ unfold classify; now rewrite (final_all_ok _ _ Hwf E1)
        | destruct (existsb is_revoked rs) eqn:E2;
@@ -287,4 +303,17 @@ Proof.
            destruct (nth k rs ROK) eqn:En; cbn in Hn, Hnr; try discriminate;
            (apply named_ok_nth; [exact Hwf | exact Hk | now rewrite En]) ] ].
   all: destruct Hres as (c & Hc & Hr & Hrej); rewrite Hc, Hr, Hrej, Ea; cbn [andb]; apply eqb_reflx.
+Qed.
+
+Lemma model_spec_ok i : wf i = true -> spec_ok i (model i) = true.
+Proof. intros _. apply model_spec_ok_total. Qed.
+
+(* passes <-> one result per certificate, all OK / non-revokable: no contract assumed *)
+Lemma pass_iff_total i rs :
+  i_action i <> Skip -> i_vout i = VRes rs ->
+  (o_result (model i) = Some Pass <-> List.length rs = List.length (i_chain i) /\ all_ok rs).
+Proof.
+  intros Ha Hv. destruct (Nat.eq_dec (List.length rs) (List.length (i_chain i))) as [Hl|Hl].
+  - rewrite (pass_iff _ _ Ha Hv Hl). tauto.
+  - rewrite (model_incomplete _ _ Ha Hv Hl). split; [discriminate | tauto].
 Qed.
